@@ -77,6 +77,9 @@ def strategy(tier):
         st.fixed_dictionaries({'op': st.just('fault'),
                                'c': st.integers(0, 7),
                                'binary': st.booleans(),
+                               'exc': st.sampled_from(['__raise__',
+                                                       '__raise_type__',
+                                                       '__raise_key__']),
                                'id': st.one_of(st.none(), st.integers(0, 5)),
                                'id2': st.integers(0, 5)}),
         st.fixed_dictionaries({'op': st.just('window'),
@@ -130,8 +133,11 @@ def _run(case, w):
         # the tag is the first event argument
         for a in args:
             if isinstance(a, dict) and set(a) == {'__tag'}:
-                if rets[a['__tag']] == '__raise__':
-                    raise RuntimeError('application handler fault')
+                r_ = rets[a['__tag']]
+                if isinstance(r_, str) and r_.startswith('__raise'):
+                    raise {'__raise_type__': TypeError,
+                           '__raise_key__': KeyError}.get(
+                               r_, RuntimeError)('application handler fault')
                 return rets[a['__tag']]
         return None
 
@@ -220,7 +226,7 @@ def _run(case, w):
             log.clear()
             w.recv_all()
             tag += 1
-            rets[tag] = '__raise__'
+            rets[tag] = op.get('exc', '__raise__')
             t1 = tag
             w.send(c['t'], wire.EVENT, c['ns'], op['id'],
                    ['a', {'__tag': tag}] + ([b'bin', {'k': b'x'}]
